@@ -167,4 +167,58 @@ theorem forward_gen (bh : BasicHeader) (wb : bh.WF) (ch : CommonHeader) (wc : ch
   simp only [forwardPacket, d1, dr1, d2, dr2, hext, e1, e2, sl, hre, dr3, bind, Except.bind, pure, Except.pure,
     List.append_assoc]
 
+/-! ### octet positions inside encoded headers -/
+theorem field_at' (x hi lo d m f : Nat) (hx : x = hi * d + lo) (hlo : lo < d) (hf : hi % m = f) : x / d % m = f := by
+  have hd : 0 < d := by omega
+  have : x / d = hi := by
+    rw [hx, Nat.mul_comm, Nat.mul_add_div hd, Nat.div_eq_of_lt hlo]; simp
+  rw [this, hf]
+
+/-- octets of an encoded common header: 0 = NH|reserved, 3 = flags, 4..5 = PL, 6 = MHL, 7 = reserved -/
+theorem CommonHeader.octets_at (h : CommonHeader) (wf : h.WF) :
+    (toBytesBE 8 h.encodeInt).getD 0 0 = h.nh * 16 + h.reserved ∧
+    (toBytesBE 8 h.encodeInt).getD 3 0 = h.flags ∧
+    (toBytesBE 8 h.encodeInt).getD 4 0 * 256 + (toBytesBE 8 h.encodeInt).getD 5 0 = h.pl ∧
+    (toBytesBE 8 h.encodeInt).getD 6 0 = h.mhl ∧
+    (toBytesBE 8 h.encodeInt).getD 7 0 = h.reserved := by
+  have e := CommonHeader.encodeInt_arith h wf
+  obtain ⟨h1, h2, h3, h4, h5, h6, h7, h8⟩ := wf
+  have h1' : h.nh < 4 := by simp only [Spec.commonNH, List.mem_cons, List.mem_nil_iff, or_false] at h1; omega
+  have h3' : h.ht < 7 := by simp only [Spec.headerTypes, List.mem_cons, List.mem_nil_iff, or_false] at h3; omega
+  have h4' := hst_lt h4
+  have hs := b2n_lt h.tc.scf
+  have hc := b2n_lt h.tc.channelOffload
+  have h5' : h.tc.tcId < 64 := h5
+  generalize htc : b2n h.tc.scf * 128 + b2n h.tc.channelOffload * 64 + h.tc.tcId = tc at e
+  have htc' : tc < 256 := by omega
+  simp only [Nat.reducePow] at e
+  rw [getD_toBytesBE _ _ _ (by omega), getD_toBytesBE _ _ _ (by omega), getD_toBytesBE _ _ _ (by omega),
+    getD_toBytesBE _ _ _ (by omega), getD_toBytesBE _ _ _ (by omega), getD_toBytesBE _ _ _ (by omega)]
+  simp only [Nat.reduceSub, Nat.reducePow, Nat.div_one]
+  generalize h.encodeInt = x at e
+  refine ⟨?_, ?_, ?_, ?_, ?_⟩
+  · exact field_at' x (h.nh * 16 + h.reserved) (h.ht * 4503599627370496 + h.hst * 281474976710656 + tc * 1099511627776 +
+      h.flags * 4294967296 + h.pl * 65536 + h.mhl * 256 + h.reserved) _ 256 _ (by rw [e]; omega) (by omega) (by omega)
+  · exact field_at' x (h.nh * 268435456 + h.reserved * 16777216 + h.ht * 1048576 + h.hst * 65536 + tc * 256 + h.flags)
+      (h.pl * 65536 + h.mhl * 256 + h.reserved) _ 256 _ (by rw [e]; omega) (by omega) (by omega)
+  · have p1 := field_at' x (h.nh * 68719476736 + h.reserved * 4294967296 + h.ht * 268435456 + h.hst * 16777216 + tc * 65536 +
+      h.flags * 256 + h.pl / 256) (h.pl % 256 * 65536 + h.mhl * 256 + h.reserved) 16777216 256 (h.pl / 256) (by rw [e]; omega) (by omega) (by omega)
+    have p2 := field_at' x (h.nh * 17592186044416 + h.reserved * 1099511627776 + h.ht * 68719476736 + h.hst * 4294967296 +
+      tc * 16777216 + h.flags * 65536 + h.pl) (h.mhl * 256 + h.reserved) 65536 256 (h.pl % 256) (by rw [e]; omega) (by omega) (by omega)
+    rw [p1, p2]; omega
+  · exact field_at' x (h.nh * 4503599627370496 + h.reserved * 281474976710656 + h.ht * 17592186044416 + h.hst * 1099511627776 +
+      tc * 4294967296 + h.flags * 16777216 + h.pl * 256 + h.mhl) h.reserved 256 256 _ (by rw [e]; omega) (by omega) (by omega)
+  · omega
+
+theorem BasicHeader.octets_at (h : BasicHeader) (wf : h.WF) :
+    (toBytesBE 4 h.encodeInt).getD 0 0 = h.version * 16 + h.nh ∧ (toBytesBE 4 h.encodeInt).getD 1 0 = h.reserved ∧
+    (toBytesBE 4 h.encodeInt).getD 3 0 = h.rhl := by
+  have e := BasicHeader.encodeInt_arith h wf
+  obtain ⟨h1, h2, h3, h4, h5, h6⟩ := wf
+  have h2' : h.nh < 3 := by
+    simp only [Spec.basicNH, List.mem_cons, List.mem_nil_iff, or_false] at h2; omega
+  rw [getD_toBytesBE _ _ _ (by omega), getD_toBytesBE _ _ _ (by omega), getD_toBytesBE _ _ _ (by omega)]
+  simp only [Nat.reduceSub, Nat.reducePow, Nat.div_one] at *
+  omega
+
 end FlexModel.Wire
